@@ -38,6 +38,13 @@ fn weight(style: usize, rng: &mut impl Rng) -> f64 {
 
 fn fresh_id(style: usize, n: usize, rng: &mut impl Rng) -> u64 {
     match style {
+        // sentinel-like identifiers first (with the identity hashers the stored hash is 0 / u64::MAX / a single bit)
+        4 => match n {
+            1 => 0,
+            2 => u64::MAX,
+            3 => 1u64 << 63,
+            _ => rng.random::<u64>(),
+        },
         0 => rng.random::<u64>(),
         1 => n as u64,                          // small consecutive integers
         2 => u64::MAX - n as u64,
@@ -149,7 +156,7 @@ fn one_run(run: u64, si: usize, s: &Value, kind: &str, ms: &[usize], rng: &mut i
         pc[ninst - 1] = 2;
     }
     // concrete items
-    let idstyle = rng.random_range(0..4);
+    let idstyle = if kind.ends_with("_no") && rng.random_range(0..2) == 0 { 4 } else { rng.random_range(0..4) };
     let wstyle = rng.random_range(0..5);
     let mut items: Vec<Item> = Vec::new();
     for n in 0..nitems {
@@ -186,6 +193,12 @@ fn one_run(run: u64, si: usize, s: &Value, kind: &str, ms: &[usize], rng: &mut i
                     let ph = if is_pmh { INITOBJ } else { 0 };
                     if let Some(v) = sg.iter().find(|v| **v != ph) {
                         if st.insert(*v, n + 1).is_some() {
+                            coll = true;
+                        }
+                    } else if !is_pmh {
+                        // the item is stored under the very value the sketch is initialised with (hash 0):
+                        // its identity is that value
+                        if st.insert(ph, n + 1).is_some() {
                             coll = true;
                         }
                     }
